@@ -116,7 +116,7 @@ CHECKS = {
  "C02": dict(
   engine="hist",
   category="model_checking",
-  text="Exhaustive walk of the history tree: on a real directory tree with the real loader, log and scheduler (commands scripted), every history of depth 2 (thorough 3) over 8 project templates alternates an edit set (every single edit: touch each source/header, delete or touch each output/intermediate, delete a header, delete a declared source, change what a compiler reports, swap the manifest for each variant / let a generator write each variant; thorough: also compatible pairs in round one) and an invocation (default build, each single target, every completion order at -j2, a build with each failing command and -k1, n2 killed after 1-2 completions with fresh garbage left in the running commands' outputs, restat). After every successful invocation every wanted step must be clean in the reference model (an independent implementation of the manifest rule on the harness's own file table) and every output must carry the content tag a from-scratch topological evaluation of the current sources gives; failures must be reported for missing declared sources.",
+  text="Exhaustive walk of the history tree: on a real directory tree with the real loader, log and scheduler (commands scripted), every history of depth 2 (thorough 3) over 8 project templates alternates an edit set (every single edit: touch each source/header, delete or touch each output/intermediate, delete a header, delete a declared source, change what a compiler reports, swap the manifest for each variant / let a generator write each variant; thorough: also compatible pairs in round one) and an invocation (default build, each single target, every completion order at -j2, a build with each failing command and -k1, n2 killed after 1-2 completions with fresh garbage left in the running commands' outputs, restat). After every successful invocation every wanted step must be clean in the reference model (an independent implementation of the manifest rule on the harness's own file table) and every output must carry the content tag a from-scratch topological evaluation of the current sources gives; failures must be reported for missing declared sources. A conformance job (proc:conform) plays 83 two-invocation histories both under the scripted executor and through the shipped binary with real shell commands and requires identical run sets and exit status, binding the scripted executor to the real one.",
   design_ref="DESIGN.md §3.2, §3.7, §4 C02",
   note="Assumptions are those of the property (mtime changes with content: logical clock; nothing else writes during a build; no phony aliases as dirtying inputs). Scripted compilers fail when a header they include does not exist; a remembered dependency on a generated file without an ordering path is n2's documented error and accepted as such.",
   technique="exhaustive bounded history exploration of the real implementation against a reference model (clean-build oracle)",
@@ -148,7 +148,7 @@ CHECKS = {
  "C09": dict(
   engine="hist",
   category="model_checking",
-  text="The history walk of C02 restricted to the templates with dependency-reporting commands (depfile and deps=msvc chains, a two-output step with a depfile, an order-only generated header that is also a discovered dependency): the report grows, shrinks, becomes empty, overlaps explicit/implicit inputs (dropped) and order-only inputs (kept), names one file under several spellings, a reported header is deleted; across failed builds, kills and restat. Run sets must equal the reference model's (the last successful report is remembered, replaced wholesale, a vanished dependency makes the step dirty and never fails the build). The /showIncludes filter is enumerated separately under C16.",
+  text="The history walk of C02 restricted to the templates with dependency-reporting commands (depfile and deps=msvc chains, a two-output step with a depfile, an order-only generated header that is also a discovered dependency): the report grows, shrinks, becomes empty, overlaps explicit/implicit inputs (dropped) and order-only inputs (kept), names one file under several spellings, a reported header is deleted; across failed builds, kills and restat. Run sets must equal the reference model's (the last successful report is remembered, replaced wholesale, a vanished dependency makes the step dirty and never fails the build). The /showIncludes filter is enumerated exhaustively under C16; the real binary is run with notes that straddle pipe reads (a note split by a pause, 300 notes at once) and must hide every note and remember every header (proc:msvc); scripted msvc output is delivered in 5-byte chunks.",
   design_ref="DESIGN.md §4 C09",
   note="Ordering neutrality of discovered dependencies is C01's monitor; a discovered dependency on a generated file without ordering path is n2's documented error.",
   technique="exhaustive bounded history exploration against a reference model",
@@ -160,6 +160,15 @@ CHECKS = {
   design_ref="DESIGN.md §4 C17",
   note="Same trusted base as C01/C02.",
   technique="exhaustive bounded history exploration plus completion-order exploration under a gated executor",
+ ),
+
+ "C16": dict(
+  engine="proc + inputs/filter",
+  category="exploration",
+  text="The shipped binary (hooks off) is run with real /bin/sh commands that observe themselves: their argv must be exactly /bin/sh -c <evaluated command> for 14 command strings covering quotes, expansions, redirections, lists, subshells, globs and UTF-8; stdin must be /dev/null; the only inherited descriptors are /dev/null and one pipe (never the log, never another command's pipe); the cwd is the build directory; nested output directories exist and the rspfile holds exactly the evaluated content. Output volumes at every pipe/buffer boundary 0..200000 bytes on stdout, stderr, alternating and from two concurrent commands must appear in n2's output exactly once and contiguously; every exit code 0..255 and every terminating signal must map to success / failure / interruption as stated, with -k 1 stopping the build; -j 1..16 with 2j commands must keep every command's 5 KB block contiguous; a command started while another runs must see only its own pipe and its completion must not wait for the unrelated command; output directories are re-created even if an earlier command of the invocation removed them; /showIncludes notes split across reads are filtered. The /showIncludes filter is enumerated exhaustively over all outputs of <= 7 (8) tokens against a reference filter.",
+  design_ref="DESIGN.md §3.5, §4 C16",
+  note="NOT decided by an exhaustive search: the kernel's interleaving of real children and pipe reads. The -j lattice is an enumeration of configurations, each run once; model checking of the collector threads with loom was not built (source substitution judged too fragile), so this property rests on the proc enumeration alone.",
+  technique="exhaustive enumeration of a finite configuration lattice on the real binary with self-observing commands; exhaustive input enumeration for the output filter",
  ),
 }
 
